@@ -28,29 +28,6 @@ Definition turn_wit (d1 : Q -> pt) (s u : Q) (w : Q * Q) : bool :=
   let '(a, b) := w in Qleb s a && Qleb a b && Qleb b u && Qleb (vdot (d1 a) (d1 b)) 0.
 
 (** diagnostics over the pieces: (pieces, failing with trigger, failing without trigger, max pb) *)
-(** Second-chance certificate for exactly collinear cubic pieces whose control polygon overshoots the chord while the
-    curve may not (the hull-based overshoot term of the piece bound is conservative there): the projection onto the
-    chord is the 1-D cubic with Bernstein coefficients (0, a1, a2, cc) / cc; it is cut into 32 sub-intervals by the
-    polar form and every sub-coefficient must stay within K tol (in length) of [0, cc].  Sound by the split and hull
-    lemmas, but not wrapped in a theorem: cases accepted this way are counted separately (flag 256). *)
-Fixpoint sub_hull_ok (a1 a2 cc B : Q) (n k : nat) : bool :=
-  match k with
-  | O => true
-  | S k' =>
-      let s := inject_Z (Z.of_nat k') / inject_Z (Z.of_nat n) in
-      let u := inject_Z (Z.of_nat k' + 1) / inject_Z (Z.of_nat n) in
-      let ok g := (Qleb 0 g || Qleb (g * g) (B * cc)) && (Qleb g cc || Qleb ((g - cc) * (g - cc)) (B * cc)) in
-      ok (blc_f 0 a1 a2 cc s s s) && ok (blc_f 0 a1 a2 cc s s u) && ok (blc_f 0 a1 a2 cc s u u) && ok (blc_f 0 a1 a2 cc u u u)
-      && sub_hull_ok a1 a2 cc B n k'
-  end.
-
-Definition alt_cube (p0 p1 p2 p3 : pt) (B : Q) (s u : Q) : bool :=
-  let '(q0, q1, q2, q3) := cube_sub_f p0 p1 p2 p3 s u in
-  let c := vsub q3 q0 in let e1 := vsub q1 q0 in let e2 := vsub q2 q0 in
-  let cc := Qstrip (nrm2 c) in
-  if Qltb 0 cc && Qeqb (vcross e1 c) 0 && Qeqb (vcross e2 c) 0
-  then sub_hull_ok (Qstrip (vdot e1 c)) (Qstrip (vdot e2 c)) cc B 32 32 else false.   (* if: vm_compute is strict in && *)
-
 Fixpoint diag (d1 : Q -> pt) (pb : Q -> Q -> Q) (alt : Q -> Q -> bool) (bound : Q) (wit : list (Q * Q)) (ts : list Q)
   : Z * Z * Z * Q :=
   match ts with
@@ -96,7 +73,7 @@ Definition judge (c : case03) : list Z :=
       judge_bez (quadB_f p0 p1 p2) (quad_d1 p0 p1 p2) (quad_pb p0 p1 p2) (fun _ _ => false) p0 p2
                 (chk_flat_quad p0 p1 p2 ts vs tol Kquad slack) Kquad tol ok vs ts wit
   | CCube [p0; p1; p2; p3] tol ok vs ts wit =>
-      judge_bez (cubeB_f p0 p1 p2 p3) (cube_d1 p0 p1 p2 p3) (cube_pb p0 p1 p2 p3) (alt_cube p0 p1 p2 p3 (sqr (Kcube * tol))) p0 p3
+      judge_bez (cubeB_f p0 p1 p2 p3) (cube_d1 p0 p1 p2 p3) (cube_pb2 p0 p1 p2 p3 (sqr (Kcube * tol))) (fun _ _ => false) p0 p3
                 (chk_flat_cube p0 p1 p2 p3 ts vs tol Kcube slack) Kcube tol ok vs ts wit
   | CCirc a tol ok vs => judge_circ a tol Kcirc slack ok vs
   | CArcCube e ok cubics => judge_arccube e ok cubics
